@@ -69,9 +69,13 @@ static void hbrace (int ms, FILE * out)
   int ticks = 0;
   platform_timer_init (&t);
   platform_timer_start (&t, 500, heartbeat_timer_callback);	/* the real callback, every 0.5 ms */
-  ms += 200;			/* thread start-up under ThreadSanitizer */
+  /* the timer thread may need a long time to start under ThreadSanitizer on a loaded machine: the window of
+   * `ms` milliseconds starts at the first tick seen (at most 20 s are waited for it) */
+  long hard_end;
+  int started = 0;
   clock_gettime (CLOCK_MONOTONIC, &ts);
-  end = ts.tv_sec * 1000L + ts.tv_nsec / 1000000L + ms;
+  hard_end = ts.tv_sec * 1000L + ts.tv_nsec / 1000000L + 20000;
+  end = hard_end;
   for (;;)
     {
       /* what backend() does at the end of every cycle */
@@ -79,13 +83,19 @@ static void hbrace (int ms, FILE * out)
         {
           call_heart_beat ();
           ticks++;
+          if (!started)
+            {
+              started = 1;
+              clock_gettime (CLOCK_MONOTONIC, &ts);
+              end = ts.tv_sec * 1000L + ts.tv_nsec / 1000000L + ms;
+            }
         }
       clock_gettime (CLOCK_MONOTONIC, &ts);
       if (ts.tv_sec * 1000L + ts.tv_nsec / 1000000L > end)
         break;
     }
   platform_timer_cleanup (&t);
-  fprintf (out, "hbrace %d %s\n", ms - 200, ticks > 0 ? "done" : "no-tick");
+  fprintf (out, "hbrace %d %s\n", ms, ticks > 0 ? "done" : "no-tick");
 }
 
 int main (int argc, char **argv)
